@@ -963,8 +963,8 @@ const KNOWN_REGION_SIGS: [&str; 6] = [
 fn run(ctx: &Ctx) {
     let steer = KNOWN_REGION_SIGS.iter().any(|s| ctx.known_sig(s));
     ctx.note(format!("png generator steering around listed findings: {steer}"));
-    ctx.run_sub("png", ctx.tier.pick(10_000, 250_000), move || png_strategy(steer), check_png);
-    ctx.run_sub("raw", ctx.tier.pick(3_000, 60_000), raw_strategy, check_raw);
+    ctx.run_sub("png", ctx.tier.pick(60_000, 600_000), move || png_strategy(steer), check_png);
+    ctx.run_sub("raw", ctx.tier.pick(15_000, 150_000), raw_strategy, check_raw);
     let rejected = ctx.label_count("gate-mismatch");
     if rejected > 0 {
         ctx.note(format!("HARNESS BUG: {rejected} generated PNG files decoded by the png crate to other pixels than intended"));
